@@ -127,6 +127,34 @@ def _(): return regexp_ind(lambda r: T.rnodes(r) >= 1)
 def _(): return regexp_ind(lambda r: T.rsize(r) >= 0)
 
 
+@proof('nfa', 'Eclo-idem')
+def _():
+    V = Const('V_', T.ViewN); e = Const('e_', Atom); S = Const('S0_', T.SetA); x = Const('x_', Atom)
+    E1 = T.Eclo(V, e, S); E2 = T.Eclo(V, e, E1)
+    return [('least', [T.Eclo_least(V, e, E1, E1)], ForAll([x], Select(E2, x) == Select(E1, x)))]
+
+
+@proof('subset', 'subset-sim')
+def _():
+    N, R = SV(REC('NFA'), Const('N_', T._NFAs)), SV(REC('DFA'), Const('R_', sort_of(REC('DFA'))))
+    V, e, q0 = T.nfa_view(N), T._eps(N), rec_get(N, 'q0').z
+    hyp = T.subset_struct(N, R)
+    P = lambda w: Implies(T.over(rec_get(N, 'Sigma').z, w), And(T.dhat(T.dfa_delta_val(R), rec_get(R, 'q0').z, w) == T.name_of_set(T.Nhat(V, e, q0, w)),
+                                                               Select(rec_get(R, 'Q').z, T.dhat(T.dfa_delta_val(R), rec_get(R, 'q0').z, w))))
+    return [(t, [hyp] + h, g) for (t, h, g) in word_ind(P)]
+
+
+@proof('subset', 'subset-reach')
+def _():
+    N, R = SV(REC('NFA'), Const('N_', T._NFAs)), SV(REC('DFA'), Const('R_', sort_of(REC('DFA'))))
+    V, e, q0, Sg = T.nfa_view(N), T._eps(N), rec_get(N, 'q0').z, rec_get(N, 'Sigma').z
+    hyp = T.subset_struct(N, R)
+    Rch = T.Reach(T.dfa_delta_val(R), rec_get(R, 'Sigma').z, rec_get(R, 'q0').z)
+    P = lambda Sx: And(Select(rec_get(R, 'Q').z, T.name_of_set(Sx)), Select(Rch, T.name_of_set(Sx)))
+    S0 = Const('S0_', T.SetA)
+    return [('least', [hyp, T.Sreach_least(V, e, q0, Sg, P), T.Sreach(V, e, q0, Sg, S0)], P(S0))]
+
+
 def int_ind(P, lo=0):
     """induction on an integer >= lo: P(lo) and (j >= lo and P(j)) => P(j+1)"""
     j = fresh_z('j', z3.IntSort())
@@ -151,7 +179,7 @@ def prove_lemmas(theories, timeout=10):
     """-> list of (name, status, log); a lemma may use the def/lfp/assumed axioms of the selected theories and earlier lemmas"""
     from .smt import discharge
     obls = []
-    order = ['word', 'wordx', 'dfa', 'nfa', 'regexp', 'tm', 'pda', 'cfg', 'naming']
+    order = ['word', 'wordx', 'naming', 'dfa', 'nfa', 'regexp', 'tm', 'pda', 'cfg', 'iso', 'subset']
     ths = [t for t in order if t in theories] + [t for t in theories if t not in order]
     avail = []
     for th in ths:
